@@ -5,8 +5,9 @@ PythonEvaluator's send(), through the public API.  Symbolic scalars (exact reals
 values including ties and the boundary due == now): every delay d >= 0 and every clock advance
 a >= 0.  Solver-enumerated: the kind of each operation of a history of length K (queue a reacting
 event with a delay, queue an unmatched event, advance the clock, execute_once -- the very first
-execute_once, which only initialises, may come before or after other operations) and one of five small
-charts (ignore, react-and-send-delayed, eventless chain, two sends, eventless internal transitions).  Reference: a multiset of pending (due, class, seq, tag) records; obligations per step are
+execute_once, which only initialises, may come before or after other operations) and one of six small
+charts (ignore, react-and-send-delayed, eventless chain, two sends, eventless internal transitions, an action
+that may raise: the event of a failed step is consumed once all the same).  Reference: a multiset of pending (due, class, seq, tag) records; obligations per step are
 z3 formulas over the dues.  Every event carries a unique tag.
 """
 import itertools
@@ -15,7 +16,7 @@ from ..symex import And, Or, Not, Implies, Ite, Iff
 
 ID = 'C05'
 OPS = ('qa', 'qu', 'adv', 'exec')
-CHARTS = ('ignore', 'react_send', 'chain', 'two_sends', 'eventless_internal')
+CHARTS = ('ignore', 'react_send', 'chain', 'two_sends', 'eventless_internal', 'raising')
 LEVELS = {
     'quick': [{'name': 'L1-K4', 'K': 4, 'budget_s': 220},
               {'name': 'L2-inductive-q3', 'harness': 'ind', 'Q': 3, 'budget_s': 60}],
@@ -26,13 +27,13 @@ LEVELS = {
 }
 WITNESSES = ['internal_before_external', 'delayed_not_yet_due', 'due_exactly_now', 'fifo_tie',
              'unmatched_consumed_alone', 'eventless_step_consumes_nothing', 'all_drained',
-             'delayed_internal_pending', 'inductive_step', 'queued_before_first_execution']
+             'delayed_internal_pending', 'inductive_step', 'queued_before_first_execution', 'step_failed_in_action']
 STUBS = ['interpreter clock: SimulatedClock advanced only by assignment (never started)',
          'action code: send(name, tag=T(), delay=D()) with D() a fresh symbolic real >= 0']
 ASSUMPTIONS = ['delays >= 0, advances >= 0, exact reals', 'events queued from one thread (C20 covers threads)',
-               'five fixed small charts: ignore-all, react-and-send-delayed, eventless chain, two sends per action, eventless internal transitions']
+               'six fixed small charts: ignore-all, react-and-send-delayed, eventless chain, two sends per action, eventless internal transitions, an action that may raise']
 OUTSIDE = ['histories longer than K operations (plus the draining phase) -- except through the inductive level, which starts from an arbitrary sorted queue state (private fields _internal_queue/_external_queue; skipped and reported if renamed)', 'DelayedEvent (deprecated)',
-           'other charts than the five of the family']
+           'other charts than the six of the family']
 
 
 def shards(level):
@@ -64,6 +65,10 @@ def make_chart(kind):
         # and consumes none; afterwards `a` is reacted to by an internal transition that sends
         sc.add_transition(Transition('A', None, guard='n < 2', action='n = n + 1'))
         sc.add_transition(Transition('A', None, event='a', action="send('j', tag=T('j'))"))
+    elif kind == 'raising':
+        # the action that reacts to `a` may raise: the step fails, but the event it was processing is consumed --
+        # announced once ('event consumed'), never processed again
+        sc.add_transition(Transition('A', None, event='a', action='BOOM()'))
     elif kind == 'chain':
         sc.add_state(BasicState('B'), 'r')
         sc.add_state(BasicState('C'), 'r')
@@ -174,7 +179,15 @@ def harness(g, job, level, canary=False):
         cur['delays'].append(d)
         return d
     cur = {'sent': [], 'delays': []}
-    it = Interpreter(make_chart(kind), initial_context={'T': T, 'D': D})
+    nboom = [0]
+
+    def BOOM():
+        nboom[0] += 1
+        if g.bool('boom%d' % nboom[0]):
+            raise RuntimeError('action fails')
+    it = Interpreter(make_chart(kind), initial_context={'T': T, 'D': D, 'BOOM': BOOM})
+    announced = []
+    it.attach(lambda m: announced.append(m.event) if m.name == 'event consumed' else None)
     # the client may queue events and move the clock before the very first execution (which initialises the
     # chart and consumes nothing); the interpreter's time is then still its initial value
     state = {'inited': not g.choice('late_init', 2)}
@@ -191,13 +204,22 @@ def harness(g, job, level, canary=False):
     def exec_step(label_prefix=''):
         cur['sent'], cur['delays'] = [], []
         now = it.clock.time
-        st = it.execute_once()
+        del announced[:]
+        failed_ev = None
+        try:
+            st = it.execute_once()
+        except Exception as ex:
+            from sismic.exceptions import CodeEvaluationError
+            g.prove(kind == 'raising' and isinstance(ex, CodeEvaluationError) and len(announced) == 1,
+                    'only_the_raising_action_fails', lambda: dict(info(), error=type(ex).__name__))
+            g.witness('step_failed_in_action')
+            st, failed_ev = None, announced[0]
         if not state['inited']:
             state['inited'] = True
             g.prove(st is not None and st.event is None and not st.transitions and not st.sent_events,
                     'first_execution_only_initialises', info)
             return st
-        ev = None if st is None else st.event
+        ev = failed_ev if failed_ev is not None else (None if st is None else st.event)
         fired = [] if st is None else st.transitions
         eventless_fired = any(t.event is None for t in fired)
         if ev is None:
@@ -249,7 +271,7 @@ def harness(g, job, level, canary=False):
             else:
                 d = 0
             pending.append({'tag': s['tag'], 'cls': 'int', 'due': now + d, 'seq': s['seq'], 'name': s['name']})
-        return st
+        return st if failed_ev is None else 'failed step'
 
     nq = 0
     for k in range(level['K']):
